@@ -2,6 +2,7 @@ package checks
 
 import (
 	"fmt"
+	"regexp"
 	"strings"
 	"time"
 
@@ -112,6 +113,68 @@ func sameOut(a, b Out) (same bool, msgOnly bool, why string) {
 	return true, false, ""
 }
 
+var c04WrapPrefix = regexp.MustCompile(`^(setpath|delpaths|getpath)\(.*\) cannot be applied to `)
+
+// c04WrappedMessageOnly: the two runs differ only in strings of which one is the other behind the prefix
+// "setpath(...) cannot be applied to ...: " (the text of an error message that the program caught and emitted).
+func c04WrappedMessageOnly(a, b Out) bool {
+	if a.Panic != "" || b.Panic != "" || a.Budget || b.Budget || len(a.Vals) != len(b.Vals) || (a.Err == nil) != (b.Err == nil) {
+		return false
+	}
+	var eq func(x, y any) bool
+	eq = func(x, y any) bool {
+		switch x := x.(type) {
+		case string:
+			ys, ok := y.(string)
+			if !ok {
+				return false
+			}
+			if x == ys {
+				return true
+			}
+			long, short := x, ys
+			if len(long) < len(short) {
+				long, short = short, long
+			}
+			return strings.HasSuffix(long, ": "+short) && c04WrapPrefix.MatchString(long)
+		case []any:
+			ya, ok := y.([]any)
+			if !ok || len(x) != len(ya) {
+				return false
+			}
+			for i := range x {
+				if !eq(x[i], ya[i]) {
+					return false
+				}
+			}
+			return true
+		case map[string]any:
+			ym, ok := y.(map[string]any)
+			if !ok || len(x) != len(ym) {
+				return false
+			}
+			for k, v := range x {
+				w, has := ym[k]
+				if !has || !eq(v, w) {
+					return false
+				}
+			}
+			return true
+		}
+		return univ.Equal(x, y)
+	}
+	for i := range a.Vals {
+		if !eq(a.Vals[i], b.Vals[i]) {
+			return false
+		}
+	}
+	if a.Err != nil {
+		same, _, _ := sameOut(Out{Err: a.Err}, Out{Err: b.Err})
+		return same
+	}
+	return true
+}
+
 // c04Program checks one program under every configuration on every input.
 func c04Program(c *engine.Ctx, prog string, inputs []any, cfgs []c04Config) {
 	base, baseSig, berr, bpan := compileWith(prog, 0)
@@ -161,7 +224,13 @@ func c04Program(c *engine.Ctx, prog string, inputs []any, cfgs []c04Config) {
 				c.Outcome("message-only:" + cfg.name)
 			}
 			if !same {
-				c.Violation(key, "optimisation-observable", map[string]any{"query": prog, "config": cfg.name, "off": cfg.off, "input": univ.ToTagged(in),
+				kind := "optimisation-observable"
+				if c04WrappedMessageOnly(baseOuts[i], o) {
+					// the recorded finding: a caught error message is emitted as a value, and the direct setpath call
+					// words it differently from the general lowering
+					kind = "deviation:caught-setpath-message"
+				}
+				c.Violation(key, kind, map[string]any{"query": prog, "config": cfg.name, "off": cfg.off, "input": univ.ToTagged(in),
 					"why": why, "all_on": baseOuts[i].String(), "config_out": o.String()})
 			}
 		}
